@@ -575,7 +575,7 @@ def check_scenario(scn, lines):
                     need = set()
                     for tn in tns:
                         need |= set(st["tags"][tn]["m"])
-                    miss = sorted(sid for sid in need if str(sid) not in st["cache"].get(c, {}))
+                    miss = sorted(sid for sid in need if sid in streams and str(sid) not in st["cache"].get(c, {}))
                     if miss:
                         F.append(Finding("C16", "missing-output-at-quiescence", name, i, {"conv": c, "streams": miss, "tags": tns}))
     for f in F:
